@@ -889,10 +889,15 @@ theorem projects_hk (s : Sys F) (now : Nat) : Projects s (.hk now) := by
   obtain ⟨h1, h2, h3⟩ := hk_run s now
   exact ⟨h1, fun _ => h2, fun h => absurd trivial h, h3⟩
 
-/-- **Every shell event projects onto the registration machine.**  One lemma per constructor; a new
-constructor that leaves `reg`, the flags and the conn ids alone is one more `projects_frame` line. -/
-theorem projects (s : Sys F) (e : Ev) : Projects s e := by
+/-- **Every shell event that keeps the link set projects onto the registration machine.**  One lemma per
+constructor; a new constructor that leaves `reg`, the flags and the conn ids alone is one more
+`projects_frame` line.  `Ev.reload` is EXCLUDED (`hnr`): `apply_connection_changes` shifts the connections
+vector under the manager's index-keyed state without remapping it (observation recorded in tools/props/C07.json
+and C19.json), so the registration machine of `Model/Reg.lean`, which names uplinks by index, has no event for
+it; the theorems of C07 are about the stretches of a run between two reloads. -/
+theorem projects (s : Sys F) (e : Ev) (hnr : e.isReload = false) : Projects s e := by
   cases e with
+  | reload now addrs outs => cases hnr
   | client now pkt => exact projects_client s now pkt
   | uplink now cid data => exact projects_uplink s now cid data
   | flush now => exact projects_flush s now
@@ -903,6 +908,23 @@ theorem projects (s : Sys F) (e : Ev) : Projects s e := by
   | failBind cid => exact projects_failBind s cid
   | stamp idx weak ld ccb cct => exact projects_stamp s idx weak ld ccb cct
   | syncTimeout => exact projects_syncTimeout s
+
+theorem regArm_noReload {e : Ev} (h : RegArm e) : e.isReload = false := by
+  cases e <;> first | rfl | exact absurd h (fun h => h)
+
+/-- The wire clause of `Projects` for EVERY event (a reload is not an arm that talks to the manager). -/
+theorem projects_wire (s : Sys F) (e : Ev) (hra : RegArm e) :
+    (step s e).2.wire.filter isRegFrame = (Reg.Sys.run (abs s) (proj s e)).2.flatMap (regWire s) :=
+  (projects s e (regArm_noReload hra)).wire hra
+
+/-- The quiet clause of `Projects` for EVERY event (a reload projects to no machine event at all). -/
+theorem projects_quiet (s : Sys F) (e : Ev) (hra : ¬ RegArm e) : (Reg.Sys.run (abs s) (proj s e)).2 = [] := by
+  cases hnr : e.isReload with
+  | false => exact (projects s e hnr).quiet hra
+  | true =>
+    cases e with
+    | reload now addrs outs => rfl
+    | _ => cases hnr
 
 /-! ## 7. Runs of the shell, and the ghost observer along them -/
 
@@ -930,7 +952,7 @@ theorem projRun_append (s : Sys F) (a b : List Ev) :
 
 /-- **Run form of the projection**: the machine run over the projected events ends in the abstraction
 of the shell's final state. -/
-theorem run_projRun (s : Sys F) (evs : List Ev) :
+theorem run_projRun (s : Sys F) (evs : List Ev) (hnr : NoReload evs) :
     (Reg.Sys.run (abs s) (projRun s evs)).1 = abs (runS s evs) := by
   induction evs generalizing s with
   | nil => rfl
@@ -938,7 +960,7 @@ theorem run_projRun (s : Sys F) (evs : List Ev) :
     simp only [projRun, runS]
     rw [Reg.Sys.run_append]
     simp only
-    rw [(projects s e).state, ih]
+    rw [(projects s e hnr.head).state, ih _ hnr.tail]
 
 /-- Shell start-up states: the manager is fresh (`SrtlaRegistrationManager::new()`, optionally after
 the single start-up `start_probing`), no link is connected. -/
@@ -970,10 +992,10 @@ theorem st0_reachable {s0 : Sys F} (h : Startup s0) : Reg.Reachable (st0 s0) := 
 theorem ghostAt_reachable {s0 : Sys F} (h : Startup s0) (evs : List Ev) : Reg.Reachable (ghostAt s0 evs) :=
   Reg.reachable_run (st0_reachable h) _
 
-theorem ghostAt_sys (s0 : Sys F) (evs : List Ev) : (ghostAt s0 evs).sys = abs (runS s0 evs) := by
+theorem ghostAt_sys (s0 : Sys F) (evs : List Ev) (hnr : NoReload evs) : (ghostAt s0 evs).sys = abs (runS s0 evs) := by
   unfold ghostAt
   rw [Reg.St.run_sys]
-  exact run_projRun s0 evs
+  exact run_projRun s0 evs hnr
 
 /-- The driver's / harness's initial state (`n` fresh links, fresh manager) is a start-up state. -/
 theorem init_fresh (id pid : Bytes) (hl : id.length = 256) (links : List (FLink F))
@@ -1018,7 +1040,7 @@ theorem frame_origin (s : Sys F) (e : Ev) (hra : RegArm e) (d : Nat × Bytes) (h
     (hf : isRegFrame d = true) :
     ∃ o ∈ (Reg.Sys.run (abs s) (proj s e)).2, d ∈ regWire s o ∧ d.2 = o.pkt := by
   have hmem : d ∈ (step s e).2.wire.filter isRegFrame := List.mem_filter.2 ⟨hd, hf⟩
-  rw [(projects s e).wire hra] at hmem
+  rw [projects_wire s e hra] at hmem
   obtain ⟨o, ho, hdo⟩ := List.mem_flatMap.1 hmem
   refine ⟨o, ho, hdo, ?_⟩
   unfold regWire regWireIds at hdo
@@ -1046,14 +1068,17 @@ theorem proj_ids (s : Sys F) (e : Ev) :
         · simp [Reg.Send.isReg1, h.1, h.2.2.2, abs]
     | hk now => exact (Reg.run_ids _ (abs s) (Reg.tickEvs_noPkt now _)).2 o ho
     | _ => exact absurd hra (fun h => h)
-  · rw [(projects s e).quiet hra] at ho
+  · rw [projects_quiet s e hra] at ho
     simp at ho
 
 /-- All REG1 emissions of one shell event go to the uplink that is pending after the event. -/
 theorem proj_reg1_pending (s : Sys F) (e : Ev) (o : Reg.Send)
     (ho : o ∈ (Reg.Sys.run (abs s) (proj s e)).2) (h1 : o.isReg1 = true) :
     (step s e).1.reg.pending = some o.target := by
-  have hst : (Reg.Sys.run (abs s) (proj s e)).1.reg = (step s e).1.reg := by rw [(projects s e).state]; rfl
+  by_cases hra' : RegArm e
+  case neg => rw [projects_quiet s e hra'] at ho; simp at ho
+  have hst : (Reg.Sys.run (abs s) (proj s e)).1.reg = (step s e).1.reg := by
+    rw [(projects s e (regArm_noReload hra')).state]; rfl
   rw [← hst]
   by_cases hra : RegArm e
   · cases e with
@@ -1064,16 +1089,16 @@ theorem proj_reg1_pending (s : Sys F) (e : Ev) (o : Reg.Send)
         exact Reg.step_reg1_pending _ _ o ho h1
     | hk now => exact Reg.tick_reg1_pending _ now _ o ho h1
     | _ => exact absurd hra (fun h => h)
-  · rw [(projects s e).quiet hra] at ho
+  · rw [projects_quiet s e hra] at ho
     simp at ho
 
 /-- A `connected` flag turns true only in an `uplink` event carrying REG3 (0x9202 = 37378) on the conn
 id of that link (the first link with that conn id). -/
-theorem connected_only_reg3 (s : Sys F) (e : Ev) (k : Nat)
+theorem connected_only_reg3 (s : Sys F) (e : Ev) (hnr : e.isReload = false) (k : Nat)
     (h1 : (flags (step s e).1.links)[k]? = some true) (h0 : (flags s.links)[k]? ≠ some true) :
     ∃ now cid data, e = .uplink now cid data ∧ data.isEmpty = false ∧
       s.links.findIdx? (·.core.connId == cid) = some k ∧ Codec.getPacketTypeS data = some 37378 := by
-  have hst := (projects s e).state
+  have hst := (projects s e hnr).state
   have h1' : (Reg.Sys.run (abs s) (proj s e)).1.connected[k]? = some true := by rw [hst]; exact h1
   obtain ⟨e', he', hp⟩ := Reg.run_connected _ (abs s) k h1' h0
   cases e with
@@ -1808,9 +1833,9 @@ theorem FreshAt.no_retry {t : Nat} {l : FLink F} (hf : FreshAt t l) (ht : 0 < t)
 def RegOk (r : Reg.Reg) : Prop :=
   (r.probing = .waiting → r.pending = none) ∧ (∀ j, r.pending = some j → 4000 ≤ r.pendingTimeoutAt)
 
-theorem regOk_run {s0 : Sys F} (h0 : Startup s0) (evs : List Ev) : RegOk (runS s0 evs).reg := by
+theorem regOk_run {s0 : Sys F} (h0 : Startup s0) (evs : List Ev) (hnr : NoReload evs) : RegOk (runS s0 evs).reg := by
   have hi := (Reg.reachable_good (ghostAt_reachable h0 evs)).inv
-  have hs := ghostAt_sys s0 evs
+  have hs := ghostAt_sys s0 evs hnr
   constructor
   · intro hw
     have := (hi.waiting (by rw [hs]; exact hw)).1
@@ -2021,9 +2046,10 @@ still pending, provided the event injects neither a send failure nor a socket re
 the pending link and a tick's clock is positive; a tick that leaves the attempt pending came before its deadline. -/
 theorem att_step {i cid D : Nat} {s : Sys F} (h : Att i cid D s) (hok : RegOk s.reg) (e : Ev)
     (hstay : (step s e).1.reg.pending = some i) (hne : e ≠ .failNext cid) (hnb : e ≠ .failBind cid)
-    (hpos : ∀ now, e = .hk now → 0 < now) :
+    (hpos : ∀ now, e = .hk now → 0 < now) (hnr : e.isReload = false) :
     Att i cid D (step s e).1 ∧ (∀ now, e = .hk now → now < s.reg.pendingTimeoutAt) := by
   cases e with
+  | reload now addrs outs => cases hnr
   | client now pkt => exact ⟨att_client h now pkt, fun _ he => by cases he⟩
   | uplink now c data => exact ⟨att_uplink h now c data hstay, fun _ he => by cases he⟩
   | flush now => exact ⟨att_flush h now, fun _ he => by cases he⟩
@@ -2076,7 +2102,8 @@ injected for the pending link (a failed re-creation of a never-established link 
 1000 ms and re-sends REG1 each time, renewing the wait) and tick clocks are positive: the deadline is renewed at most once and stays below `D + 4000`; and every
 housekeeping tick that left the attempt pending had `now < D + 3999`. -/
 theorem abandon_bound {s0 : Sys F} (h0 : Startup s0) (i D : Nat) (l : FLink F) :
-    ∀ (evs2 evs1 : List Ev), (runS s0 evs1).reg.pending = some i → (runS s0 evs1).reg.pendingTimeoutAt = D →
+    ∀ (evs2 evs1 : List Ev), NoReload evs1 → NoReload evs2 →
+      (runS s0 evs1).reg.pending = some i → (runS s0 evs1).reg.pendingTimeoutAt = D →
       (runS s0 evs1).links[i]? = some l → (runS s0 evs1).failNext.contains l.core.connId = false →
       (runS s0 evs1).failBind.contains l.core.connId = false →
       Unanswered i (runS s0 evs1) evs2 →
@@ -2084,7 +2111,7 @@ theorem abandon_bound {s0 : Sys F} (h0 : Startup s0) (i D : Nat) (l : FLink F) :
       (∀ e ∈ evs2, e ≠ .failBind l.core.connId) →
       Att i l.core.connId D (runS s0 (evs1 ++ evs2)) ∧
       ∀ pre now post, evs2 = pre ++ Ev.hk now :: post → now < D + 3999 := by
-  have key : ∀ (evs2 evs1 : List Ev), Att i l.core.connId D (runS s0 evs1) →
+  have key : ∀ (evs2 evs1 : List Ev), NoReload evs1 → NoReload evs2 → Att i l.core.connId D (runS s0 evs1) →
       Unanswered i (runS s0 evs1) evs2 →
       (∀ e ∈ evs2, e ≠ .failNext l.core.connId ∧ ∀ now, e = .hk now → 0 < now) →
       (∀ e ∈ evs2, e ≠ .failBind l.core.connId) →
@@ -2093,16 +2120,18 @@ theorem abandon_bound {s0 : Sys F} (h0 : Startup s0) (i D : Nat) (l : FLink F) :
     intro evs2
     induction evs2 with
     | nil =>
-      intro evs1 hA _ _ _
+      intro evs1 _ _ hA _ _ _
       rw [List.append_nil]
       exact ⟨hA, fun pre now post h => by cases pre <;> cases h⟩
     | cons e es ih =>
-      intro evs1 hA hun hev hevb
+      intro evs1 hn1 hn2 hA hun hev hevb
       obtain ⟨hstay, hun'⟩ := hun
       obtain ⟨hne, hpos⟩ := hev e (by simp)
-      obtain ⟨hA', htick⟩ := att_step hA (regOk_run h0 evs1) e hstay hne (hevb e (by simp)) hpos
+      obtain ⟨hA', htick⟩ := att_step hA (regOk_run h0 evs1 hn1) e hstay hne (hevb e (by simp)) hpos hn2.head
       have hrun : runS s0 (evs1 ++ [e]) = (step (runS s0 evs1) e).1 := by rw [runS_append]; rfl
-      obtain ⟨r1, r2⟩ := ih (evs1 ++ [e]) (by rw [hrun]; exact hA') (by rw [hrun]; exact hun')
+      have hn1' : NoReload (evs1 ++ [e]) := hn1.append (fun x hx => by
+        rw [List.mem_singleton] at hx; subst hx; exact hn2.head)
+      obtain ⟨r1, r2⟩ := ih (evs1 ++ [e]) hn1' hn2.tail (by rw [hrun]; exact hA') (by rw [hrun]; exact hun')
         (fun e' he' => hev e' (by simp [he'])) (fun e' he' => hevb e' (by simp [he']))
       rw [List.append_assoc] at r1
       refine ⟨r1, ?_⟩
@@ -2116,8 +2145,8 @@ theorem abandon_bound {s0 : Sys F} (h0 : Startup s0) (i D : Nat) (l : FLink F) :
       | cons p ps =>
         simp only [List.cons_append, List.cons.injEq] at hsplit
         exact r2 ps now post hsplit.2
-  intro evs2 evs1 hp hD hl hnf hnb hun hev hevb
-  exact key evs2 evs1 ⟨hp, hnf, hnb, l, hl, rfl, Or.inl hD⟩ hun hev hevb
+  intro evs2 evs1 hn1 hn2 hp hD hl hnf hnb hun hev hevb
+  exact key evs2 evs1 hn1 hn2 ⟨hp, hnf, hnb, l, hl, rfl, Or.inl hD⟩ hun hev hevb
 
 /-- **One housekeeping tick while uplink `i` is pending** (shell form of `Reg.tick_deadline`): from the
 deadline on the tick abandons the attempt; before it the attempt stays on `i` and the deadline is
